@@ -204,6 +204,13 @@ def run_case(rng, idx, tier):
             if rng.random() < 0.8:
                 off = rng.integers(-8, 9, size=3).astype(float) / 8.0 + np.array([0.0, 0.0, 0.0625])
                 t1 = np.ascontiguousarray(t1 + off); t2 = np.ascontiguousarray(t2 + off)
+            if rng.random() < 0.3:
+                # nearly parallel instead of exactly parallel faces: tilt the second tetrahedron by 1e-7..1e-3 rad
+                w = gen.rand_dir(rng) * 10 ** rng.uniform(-7, -3)
+                K = np.array([[0, -w[2], w[1]], [w[2], 0, -w[0]], [-w[1], w[0], 0]])
+                c2 = t2.mean(axis=0)
+                t2 = np.ascontiguousarray((t2 - c2) @ (np.eye(3) + K).T + c2)
+                dy = False
         else:
             t1 = _dyadic_tet(rng) if dy else _rand_tet(rng, 0.3)
             t2 = (_dyadic_tet(rng) if dy else _rand_tet(rng, 0.3)) + (rng.integers(-2, 3, size=3) / 4.0 if dy else rng.normal(size=3) * 0.15)
